@@ -76,9 +76,9 @@ type c13Case struct {
 	Globals [][]c13Global `json:"globals"` // one Go map per AddGlobalsMap call
 	// GlobalsFile[i]: group i is written to a globals file and added with
 	// AddGlobalsFile (otherwise: ParseGlobals + AddGlobalsMap)
-	GlobalsFile []bool `json:"globals_file,omitempty"`
-	Seed    int64         `json:"data_seed"`
-	Errors  []string      `json:"injected_errors,omitempty"`
+	GlobalsFile []bool   `json:"globals_file,omitempty"`
+	Seed        int64    `json:"data_seed"`
+	Errors      []string `json:"injected_errors,omitempty"`
 }
 
 // ---------- a tiny in-memory message bundle ----------
